@@ -242,55 +242,63 @@ template <class K> struct World {
         for (int i = n - 1; i > 0; i--) std::swap(p[i], p[(int)g.below((uint64_t)i + 1)]);
     }
 
-    static std::string print_matrix_file(const Mat &M, const std::string &fmt) {
+    // rsym: symmetric storage (lower triangle only; the reader expands it); rbase0: zero-based coordinate files;
+    // rfmt: which Fortran edit descriptors a Harwell-Boeing / Rutherford-Boeing file uses (low 2 bits: integers, next 2: values)
+    static std::string print_matrix_file(const Mat &M0, const std::string &fmt, int rsym, int rbase0, int rfmt) {
         std::string t; char b[256];
-        if (fmt == "hb") {
+        Mat M = M0;
+        if (rsym) { // keep the lower triangle
+            M.colptr.assign(M0.n + 1, 0); M.rowind.clear(); M.re.clear(); M.im.clear();
+            for (int j = 0; j < M0.n; j++) { for (int k = M0.colptr[j]; k < M0.colptr[j + 1]; k++) if (M0.rowind[k] >= j) { M.rowind.push_back(M0.rowind[k]); M.re.push_back(M0.re[k]); M.im.push_back(M0.im[k]); }
+                M.colptr[j + 1] = (int)M.rowind.size(); }
+        }
+        if (fmt == "hb" || fmt == "rb") {
+            bool hb = fmt == "hb";
+            static const struct { const char *f; int per, w; } IF[] = {{"(8I10)", 8, 10}, {"(10I8)", 10, 8}, {"(16I5)", 16, 5}, {"(4I20)", 4, 20}};
+            static const struct { const char *f; int per, w, prec; char e; } VF[] = {{"(3E25.16)", 3, 25, 16, 'E'}, {"(1P3E25.16)", 3, 25, 16, 'E'}, {"(1P2D30.17)", 2, 30, 17, 'D'}, {"(4E20.12)", 4, 20, 12, 'E'}};
+            auto &I = IF[rfmt & 3]; auto &V = VF[(rfmt >> 2) & 3];
             int nnz = M.nnz(); int nval = K::cplx ? 2 * nnz : nnz;
-            int ptrcrd = (M.n + 1 + 7) / 8, indcrd = (nnz + 7) / 8, valcrd = (nval + 2) / 3;
+            int ptrcrd = (M.n + 1 + I.per - 1) / I.per, indcrd = (nnz + I.per - 1) / I.per, valcrd = (nval + V.per - 1) / V.per;
+            char ty[4]; ty[0] = K::cplx ? 'C' : 'R'; ty[1] = rsym ? 'S' : 'U'; ty[2] = 'A'; ty[3] = 0;
+            if (!hb || (rfmt & 16)) for (int q = 0; q < 3; q++) ty[q] = (char)tolower(ty[q]);
             snprintf(b, sizeof b, "%-72s%-8s\n", "simulated lifecycle matrix", "SIMKEY"); t += b;
-            snprintf(b, sizeof b, "%14d%14d%14d%14d%14d\n", ptrcrd + indcrd + valcrd, ptrcrd, indcrd, valcrd, 0); t += b;
-            snprintf(b, sizeof b, "%3s%11s%14d%14d%14d%14d\n", K::cplx ? "CUA" : "RUA", "", M.m, M.n, nnz, 0); t += b;
-            snprintf(b, sizeof b, "%-16s%-16s%-20s%-20s\n", "(8I10)", "(8I10)", "(3E25.16)", ""); t += b;
-            for (int j = 0; j <= M.n; j++) { snprintf(b, sizeof b, "%10d", M.colptr[j] + 1); t += b; if (j % 8 == 7 || j == M.n) t += "\n"; }
-            for (int k = 0; k < nnz; k++) { snprintf(b, sizeof b, "%10d", M.rowind[k] + 1); t += b; if (k % 8 == 7 || k == nnz - 1) t += "\n"; }
+            if (hb) snprintf(b, sizeof b, "%14d%14d%14d%14d%14d\n", ptrcrd + indcrd + valcrd, ptrcrd, indcrd, valcrd, 0);
+            else snprintf(b, sizeof b, "%14d%14d%14d%14d\n", ptrcrd + indcrd + valcrd, ptrcrd, indcrd, valcrd);
+            t += b;
+            snprintf(b, sizeof b, "%3s%11s%14d%14d%14d%14d\n", ty, "", M.m, M.n, nnz, 0); t += b;
+            if (hb) snprintf(b, sizeof b, "%-16s%-16s%-20s%-20s\n", I.f, I.f, V.f, ""); else snprintf(b, sizeof b, "%-16s%-16s%-20s\n", I.f, I.f, V.f);
+            t += b;
+            for (int j = 0; j <= M.n; j++) { snprintf(b, sizeof b, "%*d", I.w, M.colptr[j] + 1); t += b; if (j % I.per == I.per - 1 || j == M.n) t += "\n"; }
+            for (int k = 0; k < nnz; k++) { snprintf(b, sizeof b, "%*d", I.w, M.rowind[k] + 1); t += b; if (k % I.per == I.per - 1 || k == nnz - 1) t += "\n"; }
             int cnt = 0;
             for (int k = 0; k < nnz; k++) for (int c = 0; c < (K::cplx ? 2 : 1); c++) {
                 double v = c ? M.im[k] : M.re[k]; v = (double)(typename K::real)v;
-                snprintf(b, sizeof b, "%25.16E", v); t += b; cnt++;
-                if (cnt % 3 == 0 || cnt == nval) t += "\n";
-            }
-        } else if (fmt == "rb") { // Rutherford-Boeing: like HB with a 4-field second line and no right-hand-side format
-            int nnz = M.nnz(); int nval = K::cplx ? 2 * nnz : nnz;
-            int ptrcrd = (M.n + 1 + 7) / 8, indcrd = (nnz + 7) / 8, valcrd = (nval + 2) / 3;
-            snprintf(b, sizeof b, "%-72s%-8s\n", "simulated lifecycle matrix", "SIMKEY"); t += b;
-            snprintf(b, sizeof b, "%14d%14d%14d%14d\n", ptrcrd + indcrd + valcrd, ptrcrd, indcrd, valcrd); t += b;
-            snprintf(b, sizeof b, "%3s%11s%14d%14d%14d%14d\n", K::cplx ? "cua" : "rua", "", M.m, M.n, nnz, 0); t += b;
-            snprintf(b, sizeof b, "%-16s%-16s%-20s\n", "(8I10)", "(8I10)", "(3E25.16)"); t += b;
-            for (int j = 0; j <= M.n; j++) { snprintf(b, sizeof b, "%10d", M.colptr[j] + 1); t += b; if (j % 8 == 7 || j == M.n) t += "\n"; }
-            for (int k = 0; k < nnz; k++) { snprintf(b, sizeof b, "%10d", M.rowind[k] + 1); t += b; if (k % 8 == 7 || k == nnz - 1) t += "\n"; }
-            int cnt = 0;
-            for (int k = 0; k < nnz; k++) for (int c = 0; c < (K::cplx ? 2 : 1); c++) {
-                double v = c ? M.im[k] : M.re[k]; v = (double)(typename K::real)v;
-                snprintf(b, sizeof b, "%25.16E", v); t += b; cnt++;
-                if (cnt % 3 == 0 || cnt == nval) t += "\n";
+                snprintf(b, sizeof b, "%*.*E", V.w, V.prec, v);
+                if (V.e == 'D') for (char *q = b; *q; q++) if (*q == 'E') *q = 'D';
+                t += b; cnt++;
+                if (cnt % V.per == 0 || cnt == nval) t += "\n";
             }
         } else if (fmt == "triple") {
+            int off = rbase0 ? 0 : 1;
             snprintf(b, sizeof b, "%d %d\n", M.n, M.nnz()); t += b;
             for (int j = 0; j < M.n; j++) for (int k = M.colptr[j]; k < M.colptr[j + 1]; k++) {
                 double re = (double)(typename K::real)M.re[k], im = (double)(typename K::real)M.im[k];
-                if (K::cplx) snprintf(b, sizeof b, "%d %d %.17g %.17g\n", M.rowind[k] + 1, j + 1, re, im); else snprintf(b, sizeof b, "%d %d %.17g\n", M.rowind[k] + 1, j + 1, re);
+                if (K::cplx) snprintf(b, sizeof b, "%d %d %.17g %.17g\n", M.rowind[k] + off, j + off, re, im); else snprintf(b, sizeof b, "%d %d %.17g\n", M.rowind[k] + off, j + off, re);
                 t += b;
             }
         } else { // Matrix Market coordinate
-            snprintf(b, sizeof b, "%%%%MatrixMarket matrix coordinate %s general\n%% simulated lifecycle matrix\n%d %d %d\n", K::cplx ? "complex" : "real", M.m, M.n, M.nnz()); t += b;
+            int off = rbase0 ? 0 : 1;
+            snprintf(b, sizeof b, "%%%%MatrixMarket matrix coordinate %s %s\n%% simulated lifecycle matrix\n%d %d %d\n", K::cplx ? "complex" : "real", rsym ? "symmetric" : "general", M.m, M.n, M.nnz()); t += b;
             for (int j = 0; j < M.n; j++) for (int k = M.colptr[j]; k < M.colptr[j + 1]; k++) {
                 double re = (double)(typename K::real)M.re[k], im = (double)(typename K::real)M.im[k];
-                if (K::cplx) snprintf(b, sizeof b, "%d %d %.17g %.17g\n", M.rowind[k] + 1, j + 1, re, im); else snprintf(b, sizeof b, "%d %d %.17g\n", M.rowind[k] + 1, j + 1, re);
+                if (K::cplx) snprintf(b, sizeof b, "%d %d %.17g %.17g\n", M.rowind[k] + off, j + off, re, im); else snprintf(b, sizeof b, "%d %d %.17g\n", M.rowind[k] + off, j + off, re);
                 t += b;
             }
         }
         return t;
     }
+    // number of entries of the full matrix a symmetric-storage file of M's lower triangle describes
+    static long sym_full_nnz(const Mat &M) { long d = 0, o = 0; for (int j = 0; j < M.n; j++) for (int k = M.colptr[j]; k < M.colptr[j + 1]; k++) { if (M.rowind[k] == j) d++; else if (M.rowind[k] > j) o++; } return d + 2 * o; }
 
     // ------------------------------------------------------------ operations
     void op_new(const Op &o, OpResult &r) {
@@ -301,7 +309,9 @@ template <class K> struct World {
         s.orig = M; s.m = M.m; s.n = M.n; s.nnz = M.nnz(); s.storage = (o.storage && M.m == M.n) ? 1 : 0;
         if (!o.reader.empty() && M.m == M.n && s.storage == 0) {
             // create through a matrix-file reader fed by an in-memory file (the reader allocates the three arrays)
-            std::string text = print_matrix_file(M, o.reader);
+            int rsym = (o.rsym && o.reader != "triple") ? 1 : 0, rbase0 = (o.rbase0 && (o.reader == "triple" || o.reader == "mm")) ? 1 : 0;
+            std::string text = print_matrix_file(M, o.reader, rsym, rbase0, o.rfmt);
+            long expect_nnz = rsym ? sym_full_nnz(M) : M.nnz();
             FILE *fp = fmemopen((void *)text.data(), text.size(), "r");
             int rm = 0, rn = 0; int_t rnnz = 0; S *a = nullptr; int_t *asub = nullptr, *xa = nullptr;
             rt_op_begin(ctx, (int)trace.size() - 1, o.faults);
@@ -314,8 +324,9 @@ template <class K> struct World {
                 stdin = saved;
             }
             rt_op_end(ctx);
-            if (rm != M.m || rn != M.n || rnnz != M.nnz()) { viol(r, "reader", "reader returned different dimensions"); r.cls = XC_ARGERR; return; }
+            if (rm != M.m || rn != M.n || rnnz != expect_nnz) { viol(r, "reader", "reader returned different dimensions"); r.cls = XC_ARGERR; return; }
             K::Create_CompCol_Matrix(&s.A, rm, rn, rnnz, a, asub, xa, SLU_NC, K::dtype, SLU_GE);
+            s.nnz = rnnz; s.orig.rowind.resize(rnnz); s.orig.re.resize(rnnz); s.orig.im.resize(rnnz);
             // the reader may order entries inside a column differently: adopt what it returned as the slot's matrix
             for (int j = 0; j <= rn; j++) s.orig.colptr[j] = (int)xa[j];
             for (long k = 0; k < s.nnz; k++) { s.orig.rowind[k] = (int)asub[k]; s.orig.re[k] = (double)ScalarOps<S>::re(a[k]); s.orig.im[k] = (double)ScalarOps<S>::im(a[k]); }
